@@ -72,7 +72,7 @@ class VfArm(Arm):
     min_per_shard = 12
     case_timeout = 240
     required_labels = ("torch", "jax", "fortran", "float32", "vec", "returned_array", "const_E:fortran", "const_pi:fortran",
-                       "const_pi:torch", "const_E:jax")
+                       "const_pi:torch", "const_E:jax", "then_other_precision:jax", "then_other_precision:torch")
 
     def strategy(self, ctx):
         @st.composite
@@ -85,6 +85,7 @@ class VfArm(Arm):
             rm = RefModel(spec)
             return {"spec": spec, "cfg": {"backend": be, "vectorize": vec,
                                           "inplace": (draw(st.booleans()) if vec else True),
+                                          "then_other_precision": draw(st.sampled_from([False, False, True])),
                                           "precision": draw(st.sampled_from(["float64", "float64", "float32"]))},
                     "ys": draw(gen.probes_strategy(len(rm.state_paths), n=3, lo=-1.5, hi=1.5))}
         from ..finding_predicates import repair_case
@@ -137,6 +138,17 @@ class VfArm(Arm):
             res.violate(exc_bucket(f"backend-refuses:{be}", e),
                         f"{be} backend raised on a model the NumPy backend compiles: {short_exc(e)}")
             return res
+        if cfg.get("then_other_precision") and be in ("jax", "torch"):
+            # both precisions of one backend are used in one session: the function obtained first must keep computing in
+            # its own precision after a model of the other precision was compiled (backend-wide precision switches)
+            try:
+                compile_vf(spec, backend=be, vectorize=vec, inplace=inpl, func_name="pv_vf_other",
+                           float_precision="float32" if prec == "float64" else "float64")
+                res.labels.append(f"then_other_precision:{be}")
+            except HarnessError:
+                raise
+            except Exception:
+                pass
         if be == "fortran" and "F-18a" in ctx.active_findings:
             from ..model import LAST_FORTRAN_FILE, fortran_inexact_literals
             if fortran_inexact_literals(LAST_FORTRAN_FILE[0]):
